@@ -517,6 +517,43 @@ func isErrorType(t types.Type) bool {
 	return ok && n.Obj().Name() == "error" && n.Obj().Pkg() == nil
 }
 
+// c06R5: query nodes are written only where they are allocated.
+func c06R5(p *core.Program, r *core.Report) {
+	nStores, bad := 0, map[string]string{}
+	for _, fn := range p.ModuleFunctions() {
+		if core.RelPkg(core.FuncPkgPath(fn)) != "contactql" || p.IsTestFile(fn.Pos()) || fn.Synthetic != "" {
+			continue
+		}
+		core.EachInstr(fn, false, func(_ *ssa.Function, in ssa.Instruction) {
+			st, ok := in.(*ssa.Store)
+			if !ok {
+				return
+			}
+			fa, ok := st.Addr.(*ssa.FieldAddr)
+			if !ok {
+				return
+			}
+			o, f := ownerOfFieldAddr(fa)
+			if o != "contactql.Condition" && o != "contactql.BoolCombination" {
+				return
+			}
+			nStores++
+			if _, fresh := fa.X.(*ssa.Alloc); fresh {
+				return
+			}
+			bad[core.FuncName(fn)+"/"+o+"."+f] = p.Pos(st.Pos())
+		})
+	}
+	for _, k := range core.SortedKeys(bad) {
+		r.Bad("R5", k+"/query-node-written-after-construction", bad[k], "a field of a shared query node is written outside its construction: what one validation or evaluation stores there (in its own environment) is what every other session reads")
+	}
+	if len(bad) == 0 {
+		r.OK("R5", "query-nodes-written-only-at-construction", "", fmt.Sprintf("%d field stores, all into nodes allocated in the same function", nStores))
+	}
+	r.Count("query_node_field_stores", nStores)
+	r.Require("query_node_field_stores", nStores, 4)
+}
+
 func checkC06(p *core.Program, r *core.Report) {
 	r.Rule("R1", "dirty/clean balance: the session start, the resume entry and modifiers.Apply never return (without error) on a path where a queryable contact property was changed after the last Contact.ReevaluateQueryBasedGroups (interprocedural may-dataflow; Modifier.Apply is dirty exactly when it returns true; nil-ness of the trigger parameter is propagated)")
 	r.Rule("R2", "non-active contacts: ReevaluateGroups collects every non-query group into `removed` before clearing, under status != active; CheckQueryBasedMembership answers false for non-active contacts before evaluating the query")
@@ -807,4 +844,6 @@ func checkC06(p *core.Program, r *core.Report) {
 	// ------------------------------------------------------------------ R4 the membership predicate
 	r.Rule("R4", "membership is decided by the contact-query evaluator, so its comparison tables and its any/all reduction over multi-valued properties (URNs) are obligations here too and the values of the contact it is handed, are obligations here too (imported from C15/R1 R2 R3)")
 	importObligations(p, r, "C15", map[string]bool{"R1": true, "R2": true, "R3": true}, "R4", "the query evaluator that decides group membership is wrong here, so a contact is kept in (or out of) a group its attributes do not match")
+	r.Rule("R5", "a parsed query is the same for every session and environment: in contactql no function stores into a field of a *Condition or *BoolCombination that it did not allocate itself (the nodes of a group's parsed query are shared by all sessions over the assets and evaluated in each session's own environment; a value cached in the node at validation time — the query's date parsed in the timezone the assets were loaded with — decides membership for sessions in another timezone)")
+	c06R5(p, r)
 }
